@@ -500,6 +500,15 @@ class Interp:
         if isinstance(t, ast.UnaryOp) and isinstance(t.op, ast.Not):
             c = self.const_test(t.operand, env)
             return None if c is None else not c
+        # `x is None` / `x is not None` for a name bound to a constant of a literal table row (a string, or None)
+        if isinstance(t, ast.Compare) and len(t.ops) == 1 and isinstance(t.ops[0], (ast.Is, ast.IsNot)) \
+                and isinstance(t.comparators[0], ast.Constant) and t.comparators[0].value is None \
+                and isinstance(t.left, ast.Name) and env.get(t.left.id) is not None:
+            v = env[t.left.id]
+            if v.k == "none":
+                return isinstance(t.ops[0], ast.Is)
+            if v.k == "raw" and isinstance(v.const, str):
+                return isinstance(t.ops[0], ast.IsNot)
         return None
 
     def cstr(self, e, env):
@@ -1295,6 +1304,10 @@ class Interp:
             return self.taintdeg(raw(el.deps | a.deps, deg=el.deg), cx)
         if n == "getattr":
             nm = self.cstr(e.args[1], env)
+            if nm is None and a0.k == "raw":
+                # an attribute of something that is not a model object (a record of an external library): a plain value
+                # whatever the name
+                return raw(alld, deg=a0.deg)
             if nm is None:
                 cx.unknown.append(f"getattr with non-constant name: {norm(e)} in {where[1]}")
                 return V("E", deps=alld)
